@@ -3,6 +3,7 @@ CONSTANTS
  Tasks <- TTasks
  Deps <- TDeps
  Roots <- TRoots
+ Faulty <- TFaulty
  Mach <- TMach
  MaxKills = 1000000
  MaxDiscards = 1000000
